@@ -374,3 +374,7 @@ fn file0() -> FileId {
 
 // prepare_tokens (C14 mechanism: the parser receives the non-trivia tokens only) was tried here: `iter().cloned().filter_map().collect()`
 // over three tokens needs more than 22 GB in CBMC (Token is a 200-variant enum with String payloads, cloned per element) - not decided.
+
+// Line routing in preprocess_included_file (text of unselected groups never reaches the output) was tried here with the lexer, macro
+// expansion and the directive handler replaced by recorders and 4 symbolic tokens: CBMC exceeds 23 GB (Vec<PreprocessToken> growth and
+// drop glue of the 200-variant Token) - not decided; the function uses let-chains, which keeps it outside Verus as well.
